@@ -375,8 +375,13 @@ func CheckMain(p *Prop, pc *ParentCtx) int {
 	}
 
 	if len(agg.Inconclusive) > 0 {
-		for _, s := range agg.Inconclusive {
-			fmt.Printf("INCONCLUSIVE property=%s %s\n", p.ID, s)
+		for i, s := range agg.Inconclusive {
+			if i >= 4 {
+				fmt.Printf("INCONCLUSIVE property=%s ... and %d more reasons (see the evidence file)\n", p.ID, len(agg.Inconclusive)-i)
+				break
+			}
+
+			fmt.Printf("INCONCLUSIVE property=%s %s\n", p.ID, Trunc(firstLines(s, 1), 400))
 		}
 
 		return ExitInconclusive
